@@ -16,7 +16,9 @@ struct Built
     std::vector<libcellml::ComponentPtr> compAt;
     std::vector<std::vector<libcellml::VariablePtr>> varAt;
     std::vector<std::vector<libcellml::ResetPtr>> resetAt;
+    std::vector<libcellml::VariablePtr> loose; // parentless variables kept alive by the harness
     std::map<std::pair<std::string, std::string>, libcellml::ImportSourcePtr> imports; // (url, id)
     libcellml::ImportSourcePtr importSource(const std::string &url, const std::string &id);
 };
 Built buildModel(const J &abstractModel);
+bool mutate(Built &b, const J &mutation); // one mutation addressed by position (drv_entity.cpp)
